@@ -106,6 +106,27 @@ func cUpdateRP(db, rp, tag string, mod func(c *proto2.UpdateRetentionPolicyComma
 	return c15Mk(fmt.Sprintf("UpdateRetentionPolicy(%s.%s,%s)", db, rp, tag), proto2.Command_UpdateRetentionPolicyCommand, proto2.E_UpdateRetentionPolicyCommand_Command, v)
 }
 
+func cCreateRetentionPolicy(db string, rp *proto2.RetentionPolicyInfo, def bool, tag string) c15Cmd {
+	return c15Mk(fmt.Sprintf("CreateRetentionPolicy(%s.%s,%s,default=%v)", db, rp.GetName(), tag, def), proto2.Command_CreateRetentionPolicyCommand, proto2.E_CreateRetentionPolicyCommand_Command,
+		&proto2.CreateRetentionPolicyCommand{Database: ps(db), RetentionPolicy: rp, DefaultRP: pb(def)})
+}
+
+func cCreateSubscription(db, rp, name string) c15Cmd {
+	return c15Mk(fmt.Sprintf("CreateSubscription(%s.%s,%s)", db, rp, name), proto2.Command_CreateSubscriptionCommand, proto2.E_CreateSubscriptionCommand_Command,
+		&proto2.CreateSubscriptionCommand{Name: ps(name), Database: ps(db), RetentionPolicy: ps(rp), Mode: ps("ALL"), Destinations: []string{"udp://127.0.0.1:9000"}})
+}
+
+func c15Event(id string, db string, pt uint32, opId uint64, cur, pre int32, check bool) *proto2.MigrateEventInfo {
+	return &proto2.MigrateEventInfo{EventId: ps(id), EventType: pi3(0), OpId: pu6(opId),
+		Pti:       &proto2.DbPt{Db: ps(db), Pt: &proto2.PtInfo{Owner: &proto2.PtOwner{NodeID: pu6(1)}, Status: pu3(uint32(meta2.Offline)), PtId: pu3(pt)}},
+		CurrState: pi3(cur), PreState: pi3(pre), Src: pu6(1), Dest: pu6(2), CheckConflict: pb(check), AliveConnId: pu6(1)}
+}
+
+func cCreateEvent(id, db string, pt uint32, state int32) c15Cmd {
+	return c15Mk(fmt.Sprintf("CreateEvent(%s,state=%d)", id, state), proto2.Command_CreateEventCommand, proto2.E_CreateEventCommand_Command,
+		&proto2.CreateEventCommand{EventInfo: c15Event(id, db, pt, 0, state, 0, true)})
+}
+
 func c15SeedCluster(ha string) []c15Cmd {
 	var s []c15Cmd
 	for i := 1; i <= 3; i++ {
@@ -135,11 +156,32 @@ func c15Roots() []c15Root {
 		cCreateDatabase("db0", 3, nil, ""),
 		cCreateMeasurement("db0", "autogen", "cpu", hash, "", nil),
 		cCreateShardGroup("db0", "autogen", c15B.UnixNano(), "B", config.TSSTORE))
+	// "two of everything": every Go map of the catalogue that a command ranges over holds at least two entries, so
+	// that an order-dependent pick shows within one or two commands (the map-order adversary needs maps with >= 2
+	// entries; building them from the other roots uses up the depth bound).  2 databases / partition views, 2
+	// policies in db0 (both with a hash-sharded measurement, a shard group and a subscription of the same name),
+	// 2 measurements in db0.autogen; one migrate event on db1 (a second event is one command away).  No stream and
+	// no event on db0: they would make every mark-delete command of db0 fail (CheckStreamExist*, checkMigrateConflict).
+	pairs := append(c15SeedCluster(config.WAFPolicy),
+		cCreateDbPtView("db0", 1),
+		cCreateDatabase("db0", 1, nil, ""),
+		cCreateDbPtView("db1", 1),
+		cCreateDatabase("db1", 1, nil, ""),
+		cCreateMeasurement("db0", "autogen", "cpu", hash, "", nil),
+		cCreateMeasurement("db0", "autogen", "mem", hash, "", nil),
+		cCreateRetentionPolicy("db0", c15RP("rp1", 0, 0, 1), false, "dur=0"),
+		cCreateMeasurement("db0", "rp1", "cpu", hash, "", nil),
+		cCreateShardGroup("db0", "autogen", c15B.UnixNano(), "B", config.TSSTORE),
+		cCreateShardGroup("db0", "rp1", c15B.UnixNano(), "B", config.TSSTORE),
+		cCreateSubscription("db0", "autogen", "s0"),
+		cCreateSubscription("db0", "rp1", "s0"),
+		cCreateEvent("db1$0", "db1", 0, 0))
 	return []c15Root{
 		{Name: "empty", HA: config.WAFPolicy},
 		{Name: "cluster3+db0.autogen.cpu", HA: config.WAFPolicy, Seed: base},
 		{Name: "cluster3+db0.autogen.cpu+2groups+user", HA: config.WAFPolicy, Seed: two},
 		{Name: "replication:cluster3+db0(3 replicas).autogen.cpu+1group", HA: config.RepPolicy, Seed: repl},
+		{Name: "pairs:cluster3+db0,db1+db0.autogen{cpu,mem}+db0.rp1{cpu}+group,subscription in both+event on db1", HA: config.WAFPolicy, Seed: pairs},
 	}
 }
 
@@ -387,7 +429,7 @@ func c15Menu() []c15Cmd {
 		add(c15Mk(fmt.Sprintf("CreateSubscription(%s.%s,%s)", a[0], a[1], a[2]), proto2.Command_CreateSubscriptionCommand, proto2.E_CreateSubscriptionCommand_Command,
 			&proto2.CreateSubscriptionCommand{Name: ps(a[2]), Database: ps(a[0]), RetentionPolicy: ps(a[1]), Mode: ps("ALL"), Destinations: []string{"udp://127.0.0.1:9000"}}))
 	}
-	for _, a := range [][3]string{{"db0", "autogen", "s0"}, {"db0", "autogen", "sX"}, {"", "", ""}, {"db0", "", ""}, {"dbX", "autogen", "s0"}} {
+	for _, a := range [][3]string{{"db0", "autogen", "s0"}, {"db0", "autogen", "sX"}, {"", "", ""}, {"db0", "", ""}, {"db0", "", "s0"}, {"dbX", "autogen", "s0"}} {
 		add(c15Mk(fmt.Sprintf("DropSubscription(db=%q,rp=%q,name=%q)", a[0], a[1], a[2]), proto2.Command_DropSubscriptionCommand, proto2.E_DropSubscriptionCommand_Command,
 			&proto2.DropSubscriptionCommand{Name: ps(a[2]), Database: ps(a[0]), RetentionPolicy: ps(a[1])}))
 	}
